@@ -220,7 +220,7 @@ def step (st : St) (line : String) : St × Verdict :=
     match mn.toInt?, ini.toInt?, mx.toInt?, period.toInt?, phase.toInt?, n.toNat? with
     | some mn, some ini, some mx, some period, some phase, some n =>
       (st, if settlesWithin mn ini mx period phase n then .ok "model_closed_loop_settles"
-           else .diff s!"model closed loop does not settle within a factor two of period {period}")
+           else .diff s!"model closed loop: fewer than 9 in 10 waits within a factor two of period {period}")
     | _, _, _, _, _, _ => (st, .bad "parse mloop")
   | "stuck" :: rest =>
     let kv := parseKV rest
